@@ -2,7 +2,7 @@ import os
 from .. import pure, common as C
 
 KIND = {"1": "v4-request", "2": "v5-request", "3": "v5-methods", "4": "writers", "5": "udp-parse", "6": "udp-build",
-        "7": "client-listener-dialog"}
+        "7": "client-listener-dialog", "8": "client-connect-target"}
 
 
 class C18(pure.Spec):
@@ -12,7 +12,8 @@ class C18(pure.Spec):
                 "C18_v4_read_exact", "C18_v4_read_prefix", "C18_v5_reply_bytes", "C18_v5_reply_unspecified",
                 "C18_v4_reply_bytes", "C18_v5_method_reply", "C18_v5_methods_exact",
                 "C18_udp_response_is_rfc", "C18_udp_client_roundtrip", "C18_udp_parse_exact",
-                "C18_udp_parse_fragment", "C18_udp_parse_never_panics", "C18_client_selects_noauth"]
+                "C18_udp_parse_fragment", "C18_udp_parse_never_panics", "C18_client_selects_noauth", "C18_client_v4_rejects_other_commands",
+                "C18_client_connect_target_v4a", "C18_client_connect_target_v5"]
     crate = "pure"
     binary = "vh-pure"
     design_ref = "DESIGN.md §5 C18"
@@ -24,8 +25,8 @@ class C18(pure.Spec):
             "truncations, random; UDP relay responses for IPv4/IPv6 targets and payloads 0..1500 checked by an independent "
             "client-side parser. The tunnel client's own use of these functions: the real client_main_inner with a SOCKS listener "
             "(and no tunnel) is sent version 5 greetings with 'no authentication' at every position of lists of 1-5 methods and "
-            "without it, followed by requests that need no tunnel (BIND, unknown commands; IPv4, domain, IPv6; truncated), in two "
-            "writes; the bytes it answers until it closes the connection are compared with Socks/Model.v client_dialog5. "
+            "without it, followed by requests that need no tunnel (BIND, unknown commands; IPv4, domain, IPv6, unknown address types, a wrong request version; truncated), version 4 and 4a requests with other commands than CONNECT (user ids and domains of several lengths), and unknown version bytes, in two "
+            "writes; the bytes it answers until it closes the connection are compared with Socks/Model.v client_dialog; and complete CONNECT requests (version 4, 4a, 5; domain names made of every octet value, valid UTF-8 or not) through a client whose tunnel ends in an in-process Multiplexor that records the host and port of each stream request: reply, host bytes and port compared with client_connect. "
             "Cells = (message kind, outcome class, input-length class); distinct by case hash.")
     assumptions = ["IPv6 (and IPv4) host strings are canonicalised by parsing them back with std::net (text form of "
                    "Ipv6Addr::to_string is not modelled); IPv4 text is additionally compared byte for byte",
@@ -75,6 +76,8 @@ class C18(pure.Spec):
             if i[:2] == ["1", "0"] or m[:2] == ["1", "0"]:
                 return True, k + "-error-vs-wait", "reader fails where it must wait for input (or vice versa)"
             return False, k + "-error-kind", "reader fails with a different error / reply than modelled"
+        if t[1] == "8":
+            return True, "client-connect-target", "the target the tunnel server is asked for (or the reply) is not the one of the CONNECT request (implementation %s, expected %s)" % (" ".join(i[:40]), " ".join(m[:40]))
         if t[1] == "7":
             return True, "client-listener-dialog", "the client's SOCKS5 listener answers a greeting / request differently from RFC 1928 (implementation %s, expected %s)" % (" ".join(i[:14]), " ".join(m[:14]))
         if t[1] == "4":
